@@ -439,9 +439,6 @@ pub fn chase(
     locals: &BTreeMap<String, String>,
     key: &str,
 ) -> Result<Option<String>, Error> {
-    // The haystack is a reverse iterator over both lists in series
-    let mut haystack = globals.iter().chain(locals.iter()).rev();
-
     // Find the needle in the haystack, recursively chasing look-ups ('$')
     // and handling defaults ('*')
     let key = key.trim();
@@ -452,11 +449,20 @@ pub fn chase(
     let mut default = "";
     let mut needle = key;
     let mut chasing = false;
-    let value;
 
-    loop {
-        let found = haystack.find(|&x| x.0 == needle);
-        if found.is_none() {
+    // The entries we have already been through. They are never entered twice, so
+    // `x=$x` means "the x given by the caller", and since every round either
+    // returns or enters a new entry, the chase ends after at most one round per entry
+    let mut followed: Vec<&String> = Vec::new();
+
+    for _ in 0..=globals.len() + locals.len() {
+        // The haystack is a reverse iterator over both lists in series. Each round
+        // searches all of it: the name a look-up refers to may sort anywhere
+        // relative to the key we come from
+        let mut haystack = globals.iter().chain(locals.iter()).rev();
+        let found =
+            haystack.find(|&x| x.0 == needle && !followed.iter().any(|&f| std::ptr::eq(f, x.0)));
+        let Some(found) = found else {
             if !default.is_empty() {
                 return Ok(Some(String::from(default)));
             }
@@ -466,10 +472,11 @@ pub fn chase(
                 )));
             }
             return Ok(None);
-        }
-        let thevalue = found.unwrap().1.trim();
+        };
+        followed.push(found.0);
+        let thevalue = found.1.trim();
 
-        // If the value is a(nother) lookup, we continue the search in the same iterator,
+        // If the value is a(nother) lookup, we continue the search,
         // now using a *new search key*, as specified by the current value
         if let Some(stripped) = thevalue.strip_prefix('$') {
             let mut parts: Vec<_> = stripped
@@ -503,10 +510,11 @@ pub fn chase(
         }
 
         // Otherwise we have the proper result
-        value = String::from(thevalue.trim());
-        break;
+        return Ok(Some(String::from(thevalue.trim())));
     }
-    Ok(Some(value))
+
+    // Not reachable: there is one round more than there are entries
+    Err(Error::Syntax(format!("Circular definition for '{key}'")))
 }
 
 // ----- T E S T S ------------------------------------------------------------------
